@@ -8,7 +8,8 @@
 #include <stdlib.h>
 #include <string.h>
 typedef struct { size_t n; size_t pad; } GaHdr;
-static ppointer ga_malloc (psize n) { GaHdr *h = malloc (sizeof (GaHdr) + n); if (!h) return NULL; h->n = n; memset (h + 1, 0xA5, n); return h + 1; }
+static int ga_fail_next;      /* > 0: the n-th allocation from now on is refused once (memory runs out inside a call) */
+static ppointer ga_malloc (psize n) { GaHdr *h; if (ga_fail_next > 0 && --ga_fail_next == 0) return NULL; h = malloc (sizeof (GaHdr) + n); if (!h) return NULL; h->n = n; memset (h + 1, 0xA5, n); return h + 1; }
 static void ga_free (ppointer p) { GaHdr *h; if (!p) return; h = (GaHdr *) p - 1; memset (p, 0xA5, h->n); free (h); }
 static ppointer ga_realloc (ppointer p, psize n) { ppointer q; size_t o; if (!p) return ga_malloc (n); q = ga_malloc (n); if (!q) return NULL; o = ((GaHdr *) p - 1)->n; memcpy (q, p, o < n ? o : n); ga_free (p); return q; }
 static int ga_install (void) { PMemVTable vt; vt.f_malloc = ga_malloc; vt.f_realloc = ga_realloc; vt.f_free = ga_free; return p_mem_set_vtable (&vt) ? 1 : 0; }
